@@ -14,7 +14,7 @@ RULE = ("case = (1-2 frames, 1-60 atoms (sometimes up to 400), placement uniform
         "exact set modulo pairs within 1e-5 of the cutoff, haystack order, no duplicates; compute_neighborlist: exact per-atom sets, "
         "symmetric, irreflexive, duplicate-free; non-trivial = a true neighbour pair across a periodic boundary, or atoms outside the "
         "primary cell, or a triclinic cell")
-QUICK = {"examples": 250, "shards": 12, "budget_s": 100}
+QUICK = {"examples": 250, "shards": 12, "budget_s": 170}
 THOROUGH = {"examples": 6000, "shards": 16, "budget_s": 1500}
 ASSUMPTIONS = ["pairs whose float64 minimum-image distance is within 1e-5 nm (+ 4 ulp of the coordinate magnitude) of the cutoff are not compared",
                "cutoff <= half the smallest cell width (the property's domain)"]
